@@ -56,6 +56,7 @@ type sn struct {
 	presence  bool
 	mandatory bool
 	min, max  int // 0 = unset
+	unbStmt   bool // "max-elements unbounded" is stated (max == 0)
 	keys      []string
 	typ       string
 	kids      []*sn
@@ -128,7 +129,9 @@ func (g *gen1) forest(depth, width int) []*sn {
 		case k < 4 || depth <= 0:
 			out = append(out, g.leaf())
 		case k < 5:
-			out = append(out, &sn{kind: "leaf-list", name: g.nm("ll"), typ: "string", max: g.r.Intn(2) * 5})
+			ll := &sn{kind: "leaf-list", name: g.nm("ll"), typ: "string", max: g.r.Intn(2) * 5}
+			ll.unbStmt = ll.max == 0 && g.r.Intn(3) == 0
+			out = append(out, ll)
 		case k < 7:
 			c := &sn{kind: "container", name: g.nm("c"), kids: g.forest(depth-1, width), presence: g.r.Intn(5) == 0}
 			if g.r.Intn(3) == 0 {
@@ -137,7 +140,7 @@ func (g *gen1) forest(depth, width int) []*sn {
 			c.kids = append(g.ops(false), c.kids...)
 			out = append(out, c)
 		case k < 9:
-			l := &sn{kind: "list", name: g.nm("list"), min: g.r.Intn(2) * 2}
+			l := &sn{kind: "list", name: g.nm("list"), min: g.r.Intn(2) * 2, unbStmt: g.r.Intn(3) == 0}
 			kl := &sn{kind: "leaf", name: g.nm("k"), typ: "string"}
 			l.keys = []string{kl.name}
 			l.kids = append([]*sn{kl}, g.forest(depth-1, width)...)
@@ -228,6 +231,8 @@ func renderSem(f []*sn, ind string, b *strings.Builder) {
 		}
 		if n.max > 0 {
 			fmt.Fprintf(b, " max=%d", n.max)
+		} else if n.kind == "list" || n.kind == "leaf-list" {
+			b.WriteString(" unbounded")
 		}
 		if len(n.keys) > 0 {
 			fmt.Fprintf(b, " key=%s", strings.Join(n.keys, ","))
@@ -268,6 +273,9 @@ func renderDump(kids []interface{}, ind string, b *strings.Builder, problems *[]
 		}
 		if v, _ := m["max"].(float64); v > 0 {
 			fmt.Fprintf(b, " max=%d", int(v))
+		}
+		if u, _ := m["unbounded"].(bool); u {
+			b.WriteString(" unbounded")
 		}
 		if ks, _ := m["key"].([]interface{}); len(ks) > 0 {
 			var s []string
@@ -384,6 +392,8 @@ func propsOf(n *sn) []string {
 	}
 	if n.max > 0 {
 		p = append(p, fmt.Sprintf("max-elements %d;", n.max))
+	} else if n.unbStmt {
+		p = append(p, "max-elements unbounded;")
 	}
 	return p
 }
